@@ -17,7 +17,7 @@ from sigma.conversion.base import TextQueryBackend
 from sigma.conversion.deferred import DeferredTextQueryExpression
 from sigma.conversion.state import ConversionState
 from sigma.processing.pipeline import ProcessingPipeline
-from sigma.types import CompareOperators, SigmaRegularExpression
+from sigma.types import CompareOperators, SigmaRegularExpression, SigmaRegularExpressionFlag
 
 EXC = {
     "SigmaValueError": sx.SigmaValueError,
@@ -88,6 +88,9 @@ class SimBackend(TextQueryBackend):
     re_escape_char: ClassVar[str] = "\\"
     re_escape: ClassVar[list[str]] = ["/"]
     re_flag_prefix: bool = False
+    # the base variant knows only the ignore-case flag: a rule using several other flags fails with an
+    # error that names one unsupported flag (the NE variant supports all flags through the (?ims) prefix)
+    re_flags: dict = {SigmaRegularExpressionFlag.IGNORECASE: "i"}
 
     case_sensitive_match_expression: ClassVar[str | None] = "{field} cased {value}"
     cidr_expression: ClassVar[str | None] = "cidr({field}, {value})"
@@ -297,6 +300,7 @@ class SimBackendNE(SimBackend):
     not_re_expression: ClassVar[str | None] = "{field}!~/{regex}/"
     re_expression: ClassVar[str | None] = "{field}=~/{regex}/"
     re_flag_prefix: bool = True  # flags rendered as (?ims) prefix built from the flag set
+    re_flags: dict = SigmaRegularExpression.sigma_to_re_flag
     not_cidr_expression: ClassVar[str | None] = "not_cidr({field}, {value})"
     re_flag_prefix: bool = True
     re_expression: ClassVar[str | None] = "{field}=~/{regex}/"
